@@ -38,6 +38,13 @@ I_C17cap    == Obs => Last.o.cap = cap
 I_C17fib    == Obs => /\ FibOf(Last.o.fib) = NhLive
                       /\ \A r \in routes : \E x \in 1..Len(Last.o.fib) : Last.o.fib[x].p = r.p /\ \E k \in 1..Len(Last.o.fib[x].hops) : Last.o.fib[x].hops[k][1] = r.face
 I_C17faces  == Obs => FaceMap(Last.o.faces) = faces
+FibAll(s) == [p \in { s[x].p : x \in 1..Len(s) } |->
+              LET e == s[CHOOSE x \in 1..Len(s) : s[x].p = p] IN
+              [f \in { e.hops[k][1] : k \in 1..Len(e.hops) } |-> e.hops[CHOOSE k \in 1..Len(e.hops) : e.hops[k][1] = f][2]]]
+\* every status dataset lists exactly the current table contents (fib/list, faces/list and cs/info against the tables observed directly)
+I_C17ds2    == Obs => /\ FibAll(Last.o.dsFib) = FibAll(Last.o.fib) /\ Len(Last.o.dsFib) = Len(Last.o.fib)
+                      /\ FaceMap(Last.o.dsFaces) = faces /\ Len(Last.o.dsFaces) = Cardinality(DOMAIN faces)
+                      /\ Last.o.dsCap = cap
 I_C17ds     == Obs => /\ Last.o.dsOK
                       /\ RouteSet(Last.o.dsRoutes) = routes /\ Len(Last.o.dsRoutes) = Cardinality(routes)
                       /\ StratMap(Last.o.dsStrats) = st /\ Len(Last.o.dsStrats) = Cardinality(DOMAIN st)
